@@ -3,7 +3,7 @@
    [decode = notes_of_grid o parse_grid]; these theorems are about every grid, i.e. every
    number of players, measures, rows per measure and columns. *)
 From Coq Require Import List ZArith NArith Bool Sorting.Sorted.
-From SV Require Import Sx Str Notes Proofs.C07.
+From SV Require Import Sx Str Notes Proofs.C07 Proofs.NotesText.
 Import ListNotations.
 Open Scope Z_scope.
 
@@ -50,6 +50,21 @@ Theorem C07_order_strict : forall x y z, 0 < nb_d x -> 0 < nb_d y -> 0 < nb_d z 
   note_lt x x = false /\ (note_lt x y = true -> note_lt y z = true -> note_lt x z = true).
 Proof. intros x y z Hx Hy Hz. split; [apply note_lt_irrefl|apply note_lt_trans; assumption]. Qed.
 Print Assumptions C07_order_strict.
+
+
+(* the lexical layer, for canonical text: the text of any well-formed grid of cells (players joined by
+   "&\n", measures by ",\n", one row per line; '0', a note character, or a note character followed by a
+   bracketed keysound index per cell) parses back to exactly that grid, and the column count is the
+   width of its first row.  Together with the theorems above this decides what iterating such a text yields. *)
+Theorem C07_canonical_text_parses : forall g, grid_ok g -> parse_grid (grid_text g) = Some g.
+Proof. exact parse_grid_text. Qed.
+Print Assumptions C07_canonical_text_parses.
+
+Theorem C07_canonical_text_decodes : forall g, grid_ok g ->
+  exists r0 m0 p0 g', g = ((r0 :: m0) :: p0) :: g' /\
+    decode (grid_text g) = if grid_ks_ok (length r0) g then Some (length r0, notes_of_grid g) else None.
+Proof. exact decode_grid_text. Qed.
+Print Assumptions C07_canonical_text_decodes.
 
 (* non-vacuity: a 2-player text with a 3-row measure, a keysound that shifts later columns, CRLF and blanks *)
 Example C07_example :
